@@ -1,5 +1,6 @@
 (* C14 — property theorems only.  Names, items, outputs and the per-slice function are arbitrary. *)
-From DV Require Import Base.Tactics Base.ListAux Model.C14 Proofs.C14.
+From DV Require Import Base.Tactics Base.ListAux Model.C14 Proofs.C14 Model.C14_skel Proofs.C14_skel.
+From G Require Import C14_gen C14_tie.
 
 (* for every sequence of volumes delivered as non-empty batches of consecutive slices: exactly one output per volume,
    in order, whose k-th slice is the processed model output of the k-th slice; nothing dropped, duplicated or
@@ -22,6 +23,18 @@ Theorem C14_batch_size_irrelevant (Name I O : Type) (name_eqb : Name -> Name -> 
 Proof. intros Heq. exact (reconstruct_with_sampler Name I O name_eqb Heq f vsize bs vols). Qed.
 Print Assumptions C14_batch_size_irrelevant.
 
+(* the loop body as it stands in the source (buffer of volume_size slots, slice assignment, yield when the counter reaches
+   the volume size) yields, for the same batches, exactly the volumes of the state machine, as completely filled buffers *)
+Theorem C14_source_loop_refines_state_machine (Name I Out : Type) (name_eqb : Name -> Name -> bool) (f : I -> Out) (vsize : Name -> nat)
+  (batches : list (Name * list I)) (ys : list (Name * list Out)) :
+  (forall a b, name_eqb a b = true <-> a = b) ->
+  reconstruct Name I Out name_eqb f vsize batches = Some ys ->
+  option_map snd (zrun Name Out name_eqb vsize gen_body (zst0 Name Out) (map (fun b => (fst b, map f (snd b))) batches))
+  = Some (map (fun y => (fst y, map Some (snd y))) ys).
+Proof. intros Heq H. rewrite gen_body_tie. exact (reconstruct_refines Name I Out name_eqb Heq f vsize batches ys H). Qed.
+Print Assumptions C14_source_loop_refines_state_machine.
+
+Local Open Scope nat_scope.
 Example C14_example :
   reconstruct nat nat nat Nat.eqb (fun x => x * 2) (fun nm => nth nm [3; 2] 0)
     [(0, [1; 2]); (0, [3]); (1, [4; 5])] = Some [(0, [2; 4; 6]); (1, [8; 10])].
